@@ -12,6 +12,7 @@ import (
 	"github.com/junioryono/godi/v4"
 	"github.com/junioryono/godi/v4/verifh/core"
 	"github.com/junioryono/godi/v4/verifh/eng"
+	"github.com/junioryono/godi/v4/verifh/rt"
 )
 
 // Close called again from inside the Close it belongs to.
@@ -152,6 +153,10 @@ func runC13Reentrant(c *eng.Ctx, next func() (int, bool)) {
 		"root-scope-instance-closes-the-provider:root-scope-closed-through-its-handle",
 		"scoped-instance-closes-the-provider-while-the-grandparent-chain:middle-scope-closed-directly:middle-scope-owns-nothing",
 		"scoped-instances-of-two-sibling-scopes-close-the-provider-while-the-grandparent-chain:middle-scope-closed-directly",
+		// TWO goroutines: the child is being closed on one (its instance's Close is about to close the
+		// provider) when another one starts closing the parent. Each Close waits for a scope the other
+		// goroutine is closing (KNOWN_FINDINGS.txt: recorded, not repaired)
+		reTwoGoroutines,
 	} {
 		idx, mine := next()
 		if !mine {
@@ -161,6 +166,8 @@ func runC13Reentrant(c *eng.Ctx, next func() (int, bool)) {
 		reCase(c, "C13", idx, v)
 	}
 }
+
+const reTwoGoroutines = "scoped-instance-closes-the-provider:own-scope-closed-directly:while-another-goroutine-closes-the-parent"
 
 func init() {
 	// the same executions judged for C11: the other instance of the descendant scope is closed
@@ -278,6 +285,7 @@ func reCase(c *eng.Ctx, prop string, idx int, variant string) {
 		}
 	}
 	var outer func() error
+	bound := 20 * time.Second
 	byWatcher := false
 	wantOuterErr := false
 	wantClosers := 1
@@ -369,6 +377,32 @@ func reCase(c *eng.Ctx, prop string, idx int, variant string) {
 		_, err = godi.Resolve[*reCloser](child)
 		w.target = prov.Close
 		outer = child.Close
+	case reTwoGoroutines:
+		_, err = godi.Resolve[*reCloser](child)
+		inClose, flagged := make(chan struct{}), make(chan struct{})
+		var g1 atomic.Int64
+		var once sync.Once
+		rt.SetRawYield(func(point string) {
+			if point == "scope.Close:flagged" && rt.Goid() == g1.Load() {
+				once.Do(func() { close(flagged) })
+			}
+		})
+		defer rt.SetRawYield(nil)
+		go func() {
+			<-inClose
+			g1.Store(rt.Goid())
+			_ = parent.Close()
+		}()
+		w.target = func() error {
+			close(inClose)
+			select {
+			case <-flagged: // the other goroutine's Close of the parent has begun
+			case <-time.After(10 * time.Second):
+			}
+			return prov.Close()
+		}
+		outer = child.Close
+		bound = 4 * time.Second
 	case "scoped-instance-closes-the-parent:own-scope-closed-by-cancel":
 		_, err = godi.Resolve[*reCloser](child)
 		w.target = parent.Close
@@ -391,8 +425,11 @@ func reCase(c *eng.Ctx, prop string, idx int, variant string) {
 	var outerErr error
 	finished := make(chan struct{})
 	go func() { outerErr = <-done; close(finished) }()
-	if v := awaitOrDiagnose(finished, 20*time.Second); !v.Done {
-		if prop == "C10" && v.Deadlock {
+	if v := awaitOrDiagnose(finished, bound); !v.Done {
+		if variant == reTwoGoroutines && v.Deadlock {
+			c.R.Violation(eng.Violation{Prop: prop, Clause: "hang", Sig: prop + "/hang:close-called-from-inside-a-close-method:" + variant, Case: idx, CaseID: "reentrant-close-" + variant,
+				Detail: fmt.Sprintf("%s: goroutine A closes the child scope; the Close method of its instance closes the provider; goroutine B has meanwhile begun to close the parent scope. The provider's Close (on A) waits for the parent, which B is closing; B's cascade waits for the child, which A is closing. Neither Close ever returns; goroutines stuck inside godi:\n%s", variant, v.Dump), Replay: map[string]any{"fixture": "reentrant-close", "variant": variant}})
+		} else if prop == "C10" && v.Deadlock {
 			c.R.Violation(eng.Violation{Prop: prop, Clause: "leaked", Sig: "C10/leaked:close-called-from-inside-a-close-method:" + variant, Case: idx, CaseID: "reentrant-close-" + variant,
 				Detail: fmt.Sprintf("%s: the Close never returned, so %d of the %d instances with a Close method are never closed; goroutines stuck inside godi:\n%s", variant, len(labelled)+wantClosers-int(w.otherCl.Load())-int(w.closes.Load()), len(labelled)+wantClosers, v.Dump), Replay: map[string]any{"fixture": "reentrant-close", "variant": variant}})
 		} else if prop != "C12" && prop != "C13" {
